@@ -41,6 +41,40 @@ def isEmptyList : Json → Bool
   | .arr [] => true
   | _ => false
 
+/-- a non-empty list of strings as the value of `action` (`getStringArray`, then "missing …" for
+    an empty one; `null` entries have become empty strings) -/
+def stringListPatch (action valueKey : String) (arg : Json) : Option Json :=
+  match goStringArray arg with
+  | some xs => if xs.isEmpty then none else some (mkPatch action valueKey (.arr (xs.map .str)))
+  | none => none
+
+/-- the eight constructors of `pkg/patch/patch.go` on their decoded argument (the argument text is
+    JSON; duplicate member names are outside the model). `none` = error.
+    * `NewReplacePatch`: an object with no other members than `publicKeys` and `services` (`null`
+      decodes to a nil map and is written back as `null`);
+    * `NewJSONPatch`: a list, or `null`;
+    * `NewAddPublicKeysPatch`, `NewAddServiceEndpointsPatch`: whatever value stands in the document
+      `{"publicKey": …}` / `{"service": …}` the argument is spliced into;
+    * the four id / URI constructors: a non-empty list of strings. -/
+def newPatch (ctor : String) (arg : Json) : Option Json :=
+  if ctor = "replace" then
+    match arg with
+    | .obj kvs => if kvs.all (fun kv => kv.1 = "services" || kv.1 = "publicKeys") then some (mkPatch "replace" "document" (.obj kvs)) else none
+    | .null => some (mkPatch "replace" "document" .null)
+    | _ => none
+  else if ctor = "ietf-json-patch" then
+    match arg with
+    | .arr xs => some (mkPatch "ietf-json-patch" "patches" (.arr xs))
+    | .null => some (mkPatch "ietf-json-patch" "patches" .null)
+    | _ => none
+  else if ctor = "add-public-keys" then some (mkPatch "add-public-keys" "publicKeys" arg)
+  else if ctor = "add-services" then some (mkPatch "add-services" "services" arg)
+  else if ctor = "remove-public-keys" then stringListPatch "remove-public-keys" "ids" arg
+  else if ctor = "remove-services" then stringListPatch "remove-services" "ids" arg
+  else if ctor = "add-also-known-as" then stringListPatch "add-also-known-as" "uris" arg
+  else if ctor = "remove-also-known-as" then stringListPatch "remove-also-known-as" "uris" arg
+  else none
+
 /-- `PatchesFromDocument` on the decoded document. `none` = error. -/
 def fromDocument (doc : Json) : Option (List Json) :=
   let kvs := match doc with
